@@ -1,11 +1,203 @@
-(* C16: list/layout lemmas for the VTK model. *)
+(* C16: list/layout lemmas for the VTK model: nested tables, the two transposes, array lookup. *)
 From DF Require Import Prelude Constants_gen Region Mesh Subregions Vtk.
 From DF Require Import QLemmas ListLemmas.
+From Coq Require Import Arith ArithRing.
 Open Scope nat_scope.
 
+(* ---------- name -> array ---------- *)
 Lemma lookup_add_same {A} name (a : A) l : lookup_array name (add_array name a l) = Some a.
 Proof.
   induction l as [|[nm b] t IH]; simpl.
   - now rewrite String.eqb_refl.
   - destruct (String.eqb nm name) eqn:E; simpl; rewrite E; auto.
 Qed.
+
+Lemma lookup_add_other {A} name name' (a : A) l :
+  name <> name' -> lookup_array name (add_array name' a l) = lookup_array name l.
+Proof.
+  intros Hne. induction l as [|[nm b] t IH]; simpl.
+  - destruct (String.eqb_spec name' name); [congruence | reflexivity].
+  - destruct (String.eqb_spec nm name') as [E | E]; simpl.
+    + subst nm. destruct (String.eqb_spec name' name); [congruence | reflexivity].
+    + destruct (String.eqb_spec nm name); [reflexivity | exact IH].
+Qed.
+
+(* ---------- tables of equally long blocks ---------- *)
+Lemma flat_map_seq_length {A} (g : nat -> list A) m s n :
+  (forall i, s <= i < s + n -> length (g i) = m) -> length (flat_map g (seq s n)) = n * m.
+Proof.
+  revert s. induction n as [|n IH]; intros s H; simpl; [reflexivity|].
+  rewrite app_length, H by lia. rewrite IH; [reflexivity|]. intros i Hi. apply H. lia.
+Qed.
+
+Lemma tab_length {A} (g : nat -> list A) m n :
+  (forall i, i < n -> length (g i) = m) -> length (tab n g) = n * m.
+Proof. intros H. unfold tab. apply flat_map_seq_length. intros i Hi. apply H. lia. Qed.
+
+Lemma nth_flat_map_seq {A} (g : nat -> list A) m d s n k r :
+  (forall i, s <= i < s + n -> length (g i) = m) -> k < n -> r < m ->
+  nth (k * m + r) (flat_map g (seq s n)) d = nth r (g (s + k)) d.
+Proof.
+  revert s k. induction n as [|n IH]; intros s k H Hk Hr; [lia|].
+  simpl. destruct k as [|k].
+  - rewrite app_nth1 by (rewrite H; lia). simpl. now rewrite Nat.add_0_r.
+  - rewrite app_nth2 by (rewrite H by lia; simpl; lia).
+    rewrite H by lia. replace (S k * m + r - m) with (k * m + r) by (simpl; lia).
+    rewrite IH; [| intros i Hi; apply H; lia | lia | exact Hr].
+    f_equal. f_equal. lia.
+Qed.
+
+Lemma nth_tab {A} (g : nat -> list A) m d n k r :
+  (forall i, i < n -> length (g i) = m) -> k < n -> r < m ->
+  nth (k * m + r) (tab n g) d = nth r (g k) d.
+Proof.
+  intros H Hk Hr. unfold tab. rewrite (@nth_flat_map_seq A g m d 0 n k r); auto.
+  intros i Hi. apply H. lia.
+Qed.
+
+(* three nested tables, slowest index outermost *)
+Lemma nth_tab3 {A} (row : nat -> nat -> nat -> list A) m d n1 n2 n3 a b c r :
+  (forall x y z, length (row x y z) = m) -> a < n1 -> b < n2 -> c < n3 -> r < m ->
+  nth (((a * n2 + b) * n3 + c) * m + r)
+      (tab n1 (fun x => tab n2 (fun y => tab n3 (fun z => row x y z)))) d
+  = nth r (row a b c) d.
+Proof.
+  intros Hl Ha Hb Hc Hr.
+  assert (L3 : forall x y, length (tab n3 (fun z => row x y z)) = n3 * m)
+    by (intros; apply tab_length; intros; apply Hl).
+  assert (L2 : forall x, length (tab n2 (fun y => tab n3 (fun z => row x y z))) = n2 * (n3 * m))
+    by (intros; apply tab_length; intros; apply L3).
+  replace (((a * n2 + b) * n3 + c) * m + r) with (a * (n2 * (n3 * m)) + (b * (n3 * m) + (c * m + r))) by ring.
+  assert (B3 : c * m + r < n3 * m) by nia.
+  assert (B2 : b * (n3 * m) + (c * m + r) < n2 * (n3 * m)) by nia.
+  rewrite (nth_tab _ (n2 * (n3 * m))); auto.
+  rewrite (nth_tab _ (n3 * m)); auto.
+  rewrite (nth_tab _ m); auto.
+Qed.
+
+Lemma tab3_length {A} (row : nat -> nat -> nat -> list A) m n1 n2 n3 :
+  (forall x y z, length (row x y z) = m) ->
+  length (tab n1 (fun x => tab n2 (fun y => tab n3 (fun z => row x y z)))) = n1 * (n2 * (n3 * m)).
+Proof.
+  intros Hl. apply tab_length. intros. apply tab_length. intros. apply tab_length. intros. apply Hl.
+Qed.
+
+Lemma cell_id_bound nx ny nz i j k : i < nx -> j < ny -> k < nz -> cell_id nx ny i j k < nx * ny * nz.
+Proof.
+  intros Hi Hj Hk. unfold cell_id.
+  assert (A1 : j + ny * k + 1 <= ny * nz) by nia.
+  assert (A2 : nx * (j + ny * k + 1) <= nx * (ny * nz)) by (apply Nat.mul_le_mono_l; exact A1).
+  nia.
+Qed.
+
+Lemma vpos_bound nx ny nz nv i j k c :
+  i < nx -> j < ny -> k < nz -> c < nv -> vpos nx ny nv i j k c < nx * ny * nz * nv.
+Proof.
+  intros Hi Hj Hk Hc. unfold vpos. pose proof (@cell_id_bound nx ny nz i j k Hi Hj Hk) as B.
+  assert (A : (cell_id nx ny i j k + 1) * nv <= nx * ny * nz * nv) by (apply Nat.mul_le_mono_r; lia).
+  nia.
+Qed.
+
+(* ---------- VTK tuple order ---------- *)
+Section Layout.
+  Variable V : Type.
+  Variable d : V.
+
+  Lemma nth_vtk_rows {A} (row : nat -> nat -> nat -> list A) (da : A) m nx ny nz i j k r :
+    (forall x y z, length (row x y z) = m) -> i < nx -> j < ny -> k < nz -> r < m ->
+    nth (cell_id nx ny i j k * m + r) (vtk_rows nx ny nz row) da = nth r (row i j k) da.
+  Proof.
+    intros Hl Hi Hj Hk Hr. unfold vtk_rows, cell_id.
+    replace ((i + nx * (j + ny * k)) * m + r) with (((k * ny + j) * nx + i) * m + r) by ring.
+    exact (@nth_tab3 A (fun z y x => row x y z) m da nz ny nx k j i r
+             (fun x y z => Hl z y x) Hk Hj Hi Hr).
+  Qed.
+
+  Lemma vtk_rows_length {A} (row : nat -> nat -> nat -> list A) m nx ny nz :
+    (forall x y z, length (row x y z) = m) -> length (vtk_rows nx ny nz row) = nz * (ny * (nx * m)).
+  Proof. intros Hl. unfold vtk_rows. apply (@tab3_length A (fun z y x => row x y z)). intros; apply Hl. Qed.
+
+  Lemma tuple_at_length ny nz nv (a : list V) i j k : length (tuple_at d ny nz nv a i j k) = nv.
+  Proof. unfold tuple_at. now rewrite map_length, seq_length. Qed.
+
+  Lemma nth_tuple_at ny nz nv (a : list V) i j k c : c < nv ->
+    nth c (tuple_at d ny nz nv a i j k) d = nth (cpos ny nz nv i j k c) a d.
+  Proof.
+    intros Hc. unfold tuple_at.
+    rewrite (nth_indep _ d (nth (cpos ny nz nv i j k 0) a d)) by (rewrite map_length, seq_length; exact Hc).
+    change (nth (cpos ny nz nv i j k 0) a d) with ((fun c0 => nth (cpos ny nz nv i j k c0) a d) 0).
+    rewrite map_nth. rewrite seq_nth by exact Hc. reflexivity.
+  Qed.
+
+  (* the writer's transpose: component c of cell (i,j,k) sits in tuple cell_id of the VTK array *)
+  Lemma vtk_order_nth nx ny nz nv (a : list V) i j k c :
+    i < nx -> j < ny -> k < nz -> c < nv ->
+    nth (vpos nx ny nv i j k c) (vtk_order d nx ny nz nv a) d = nth (cpos ny nz nv i j k c) a d.
+  Proof.
+    intros Hi Hj Hk Hc. unfold vpos, vtk_order.
+    rewrite (@nth_vtk_rows V (tuple_at d ny nz nv a) d nv); auto using tuple_at_length.
+    now apply nth_tuple_at.
+  Qed.
+
+  Lemma vtk_order_length nx ny nz nv (a : list V) :
+    length (vtk_order d nx ny nz nv a) = nx * ny * nz * nv.
+  Proof.
+    unfold vtk_order. rewrite (@vtk_rows_length V _ nv) by (intros; apply tuple_at_length). ring.
+  Qed.
+
+  (* whole tuple *)
+  Lemma vtk_order_tuple nx ny nz nv (a : list V) i j k :
+    i < nx -> j < ny -> k < nz ->
+    tuple_of d (nv, vtk_order d nx ny nz nv a) (cell_id nx ny i j k) = tuple_at d ny nz nv a i j k.
+  Proof.
+    intros Hi Hj Hk. unfold tuple_of, tuple_at. simpl fst. simpl snd.
+    apply map_ext_in. intros c Hc. apply in_seq in Hc.
+    apply vtk_order_nth; auto; lia.
+  Qed.
+
+  Lemma singleton_rows_tuple {A} (da : A) (g : nat -> nat -> nat -> A) nx ny nz i j k :
+    i < nx -> j < ny -> k < nz ->
+    nth (cell_id nx ny i j k) (vtk_rows nx ny nz (fun x y z => [g x y z])) da = g i j k.
+  Proof.
+    intros Hi Hj Hk.
+    pose proof (@nth_vtk_rows A (fun x y z => [g x y z]) da 1 nx ny nz i j k 0
+                  (fun _ _ _ => eq_refl) Hi Hj Hk (Nat.lt_0_succ 0)) as H.
+    rewrite Nat.mul_1_r, Nat.add_0_r in H. exact H.
+  Qed.
+
+  (* the reader's transpose *)
+  Lemma from_vtk_order_nth nx ny nz nv (p : list V) i j k c :
+    i < nx -> j < ny -> k < nz -> c < nv ->
+    nth (cpos ny nz nv i j k c) (from_vtk_order d nx ny nz nv p) d = nth (vpos nx ny nv i j k c) p d.
+  Proof.
+    intros Hi Hj Hk Hc. unfold cpos, from_vtk_order.
+    rewrite (@nth_tab3 V (fun x y z => map (fun c0 => nth (vpos nx ny nv x y z c0) p d) (seq 0 nv)) nv d
+               nx ny nz i j k c); auto.
+    - rewrite (nth_indep _ d (nth (vpos nx ny nv i j k 0) p d)) by (rewrite map_length, seq_length; exact Hc).
+      change (nth (vpos nx ny nv i j k 0) p d) with ((fun c0 => nth (vpos nx ny nv i j k c0) p d) 0).
+      rewrite map_nth, seq_nth by exact Hc. reflexivity.
+    - intros. now rewrite map_length, seq_length.
+  Qed.
+
+  Lemma from_vtk_order_length nx ny nz nv (p : list V) :
+    length (from_vtk_order d nx ny nz nv p) = nx * ny * nz * nv.
+  Proof.
+    unfold from_vtk_order.
+    rewrite (@tab3_length V (fun x y z => map (fun c0 => nth (vpos nx ny nv x y z c0) p d) (seq 0 nv)) nv)
+      by (intros; now rewrite map_length, seq_length).
+    ring.
+  Qed.
+
+  (* reading what was written (values passed through any storage map wr) puts every component back *)
+  Lemma transpose_roundtrip (wr : V -> V) nx ny nz nv (a : list V) i j k c :
+    i < nx -> j < ny -> k < nz -> c < nv ->
+    nth (cpos ny nz nv i j k c) (from_vtk_order d nx ny nz nv (map wr (vtk_order d nx ny nz nv a))) d
+    = wr (nth (cpos ny nz nv i j k c) a d).
+  Proof.
+    intros Hi Hj Hk Hc. rewrite from_vtk_order_nth by assumption.
+    assert (B : vpos nx ny nv i j k c < length (vtk_order d nx ny nz nv a)).
+    { rewrite vtk_order_length. now apply vpos_bound. }
+    rewrite (nth_indep _ d (wr d)) by (rewrite map_length; exact B).
+    rewrite map_nth. f_equal. now apply vtk_order_nth.
+  Qed.
+End Layout.
